@@ -711,6 +711,10 @@ func evalFunctionCall(node *CallExpression, env *Environment) Object {
 		return newError("the function is not allowed in an condition expression; function: " + funcObj.Name)
 	}
 
+	if len(node.Arguments) != funcObj.Arity {
+		return newError("incorrect number of operands for operator or function; operator or function: %s, number of operands: %d", funcObj.Name, len(node.Arguments))
+	}
+
 	args := evalExpressions(node.Arguments, env)
 	if len(args) == 1 && isError(args[0]) {
 		return args[0]
@@ -732,6 +736,10 @@ func evalUpdateFunctionCall(node *CallExpression, env *Environment) Object {
 
 	if !funcObj.ForUpdate {
 		return newError("the function is not allowed in an update expression; function: " + funcObj.Name)
+	}
+
+	if len(node.Arguments) != funcObj.Arity {
+		return newError("incorrect number of operands for operator or function; operator or function: %s, number of operands: %d", funcObj.Name, len(node.Arguments))
 	}
 
 	args := evalUpdateExpressions(node.Arguments, env)
